@@ -72,7 +72,7 @@ ASSUME_SEQ = [
 def c01(tier):
   run = common.Run("C01", tier, "model_checking")
   run.assumptions += ASSUME_SEQ
-  n = 2500 if tier == "quick" else 40000
+  n = 2500 if tier == "quick" else 20000
   P = gen.profile(nmin=3, nmax=14, deep=0.85, p_init=0.5, w_none=40, w_unh=5, w_hook=5, w_tran=50, live=0.0,
                   clocks=("fine",), hosts=(("queued", 5), ("instr", 2), ("plain", 3)), p_spied=0.6, p_eff=0.1,
                   nops=(3, 10), w_ops=dict(step=60, dispatch=30, post=3, defer=0, recall=0, is_in=3, child=2, scribble=0,
@@ -87,7 +87,7 @@ def c01(tier):
 def c02(tier):
   run = common.Run("C02", tier, "model_checking")
   run.assumptions += ASSUME_SEQ
-  n = 2500 if tier == "quick" else 40000
+  n = 2500 if tier == "quick" else 20000
   P = gen.profile(nmin=1, nmax=12, deep=0.7, w_none=45, w_unh=20, w_hook=20, w_tran=15, w_null=8, live=0.0, clocks=("fine",),
                   hosts=(("queued", 5), ("instr", 2), ("plain", 3)), p_spied=0.6, p_eff=0.1,
                   w_ops=dict(step=60, dispatch=30, post=3, defer=0, recall=0, is_in=3, child=2, scribble=0,
@@ -102,7 +102,7 @@ def c02(tier):
 def c03(tier):
   run = common.Run("C03", tier, "model_checking")
   run.assumptions += ASSUME_SEQ
-  n = 3000 if tier == "quick" else 40000
+  n = 3000 if tier == "quick" else 20000
   P = gen.profile(nmin=1, nmax=14, deep=0.8, p_init=0.7, live=0.0, clocks=("fine",), p_eff=0.15, p_restart=0.25,
                   hosts=(("queued", 4), ("instr", 3), ("plain", 3)), p_spied=0.6, nops=(0, 3),
                   w_ops=dict(step=50, dispatch=30, post=0, defer=0, recall=0, is_in=10, child=10, scribble=0,
@@ -129,15 +129,15 @@ def _simple(prop, P, nq, nt, mc=True):
 
 QOPS = dict(step=40, dispatch=0, post=25, defer=10, recall=10, is_in=2, child=1, scribble=3, clear_spy=1, clear_trace=1, empty_rtc=8)
 c14 = _simple("C14", gen.profile(hosts=(("queued", 1),), p_eff=0.5, live=0.0, clocks=("fine",), nops=(6, 16), w_ops=dict(QOPS, circuit=10),
-                                 caps=(2, 3, 500), p_fault=0.15), 2500, 40000)
+                                 caps=(2, 3, 500), p_fault=0.15), 2500, 20000)
 c15 = _simple("C15", gen.profile(hosts=(("queued", 1),), p_eff=0.5, live=0.0, clocks=("fine",), nops=(6, 16),
-                                 w_ops=dict(QOPS, defer=25, recall=25), caps=(2, 3, 500), p_fault=0.1), 2500, 40000)
+                                 w_ops=dict(QOPS, defer=25, recall=25), caps=(2, 3, 500), p_fault=0.1), 2500, 20000)
 c19 = _simple("C19", gen.profile(hosts=(("queued", 6), ("instr", 2)), p_spied=1.0, p_eff=0.5, live=0.0, clocks=("fine",),
-                                 nops=(4, 14), w_ops=dict(QOPS, dispatch=8, scribble=8, is_in=5, child=3)), 2500, 40000)
+                                 nops=(4, 14), w_ops=dict(QOPS, dispatch=8, scribble=8, is_in=5, child=3)), 2500, 20000)
 c20 = _simple("C20", gen.profile(hosts=(("queued", 6), ("instr", 2)), p_spied=1.0, p_eff=0.3, live=0.0, clocks=("fine",),
-                                 nops=(4, 14), w_tran=30, w_hook=25, w_ops=dict(QOPS, dispatch=8)), 2500, 40000)
+                                 nops=(4, 14), w_tran=30, w_hook=25, w_ops=dict(QOPS, dispatch=8)), 2500, 20000)
 _c21_seq = _simple("C21", gen.profile(hosts=(("queued", 1),), p_spied=1.0, p_eff=0.3, live=1.0,
-                                      clocks=("fine", "const", "coarse", "back"), nops=(4, 14), w_ops=dict(QOPS, dispatch=0)), 2500, 40000)
+                                      clocks=("fine", "const", "coarse", "back"), nops=(4, 14), w_ops=dict(QOPS, dispatch=0)), 2500, 20000)
 
 
 def c21(tier):
@@ -150,7 +150,7 @@ def c21(tier):
                   w_ops=dict(QOPS, dispatch=0))
   with cf.ThreadPoolExecutor(2) as ex:
     f = ex.submit(model_check_hsm, run, tier)
-    seqcheck.run(run, "C21", 2500 if tier == "quick" else 40000, P)
+    seqcheck.run(run, "C21", 2500 if tier == "quick" else 20000, P)
     f.result()
   from harness import aocheck
   results = aocheck.run_batch(400 if tier == "quick" else 8000, kinds=("random", "pct"), caps=(5, 8), force="c21")
@@ -174,9 +174,9 @@ def c21(tier):
 c22 = _simple("C22", gen.profile(p_eff=0.1, live=0.0, clocks=("fine",), hosts=(("queued", 4), ("instr", 3), ("plain", 3)),
                                  p_spied=0.6, p_bad_child=0.3,
                                  w_ops=dict(step=30, dispatch=15, post=2, defer=0, recall=0, is_in=30, child=25, scribble=0,
-                                            clear_spy=0, clear_trace=0, empty_rtc=0)), 2500, 40000)
+                                            clear_spy=0, clear_trace=0, empty_rtc=0)), 2500, 20000)
 c23 = _simple("C23", gen.profile(p_eff=0.2, live=0.0, clocks=("fine",), hosts=(("queued", 4), ("instr", 3), ("plain", 3)),
-                                 p_spied=0.6), 2500, 40000)
+                                 p_spied=0.6), 2500, 20000)
 
 
 # ---------------------------------------------------------------- C24
@@ -214,7 +214,7 @@ def c24(tier):
                              clear_trace=0, empty_rtc=0))
   with cf.ThreadPoolExecutor(2) as ex:
     f = ex.submit(model_check_hsm, run, tier)
-    traces = seqcheck.run(run, "C24", 3000 if tier == "quick" else 40000, P, maker=_bad_maker, is_nontrivial=_reached_bad)
+    traces = seqcheck.run(run, "C24", 3000 if tier == "quick" else 20000, P, maker=_bad_maker, is_nontrivial=_reached_bad)
     f.result()
   run.add(traces_reaching_the_fault=sum(1 for t in traces if _reached_bad(t)))
   return run.finish()
@@ -228,6 +228,7 @@ def _build_maker(rng, P):
   chart["spied"] = True
   chart["names"] = ["s%d" % (i + 1) for i in range(chart["n"])]      # the registries are keyed by state name: names are unique here
   chart["hstyle"] = "fn"
+  chart["companion"] = False
   # what kind of callable the registered callbacks are: plain functions, functools.partial objects, objects with __call__,
   # or (template / Factory only: the generated text calls cb(chart, e)) bound methods of the chart
   chart["cbstyle"] = rng.choice(["def", "def", "partial", "object"] + (["method"] if chart["build"] in ("template", "factory") else []))
@@ -259,7 +260,7 @@ def c17(tier):
                              clear_trace=0, empty_rtc=3))
   with cf.ThreadPoolExecutor(2) as ex:
     f = ex.submit(model_check_hsm, run, tier)
-    traces = seqcheck.run(run, "C17", 3000 if tier == "quick" else 40000, P, maker=_build_maker, attr=_attr_c17)
+    traces = seqcheck.run(run, "C17", 3000 if tier == "quick" else 20000, P, maker=_build_maker, attr=_attr_c17)
     f.result()
   byb = {}
   for t in traces:
